@@ -50,7 +50,15 @@
 #include <string>
 #include <typeinfo>
 #include <vector>
+#include <unistd.h>
+#include <signal.h>
+#include <sys/wait.h>
+// white-box (read-only) access to the point / needed index sets of every family
+#define private public
+#define protected public
 #include "TasmanianSparseGrid.hpp"
+#undef private
+#undef protected
 
 using namespace TasGrid;
 
@@ -145,8 +153,10 @@ static void dump(Slot &s, const std::string &what) {
     } else if (what == "points") pd("points", g.getLoadedPoints());
     else if (what == "needed") pd("needed", g.getNeededPoints());
     else if (what == "allpoints") pd("allpoints", g.getPoints());
-    else if (what == "pidx") { if (g.empty()) pi("pidx", nullptr, 0); else pi("pidx", g.getPointsIndexes(), (size_t) d * g.getNumPoints()); }
-    else if (what == "nidx") { if (g.empty() || g.getNumNeeded() == 0) pi("nidx", nullptr, 0); else pi("nidx", g.getNeededIndexes(), (size_t) d * g.getNumNeeded()); }
+    else if (what == "pidx") { if (g.empty() || g.base->points.empty()) pi("pidx", nullptr, 0); else pi("pidx", g.base->points.indexes); }
+    else if (what == "nidx") { if (g.empty() || g.base->needed.empty()) pi("nidx", nullptr, 0); else pi("nidx", g.base->needed.indexes); }
+    else if (what == "apipidx") { if (g.empty()) pi("apipidx", nullptr, 0); else pi("apipidx", g.getPointsIndexes(), (size_t) d * g.getNumPoints()); }
+    else if (what == "apinidx") { if (g.empty() || g.getNumNeeded() == 0) pi("apinidx", nullptr, 0); else pi("apinidx", g.getNeededIndexes(), (size_t) d * g.getNumNeeded()); }
     else if (what == "values") { const double *v = g.getLoadedValues(); pd("values", v, (v && outs > 0) ? (size_t) outs * g.getNumLoaded() : 0); }
     else if (what == "coef") { const double *c = (g.empty() || outs == 0 || g.getNumLoaded() == 0) ? nullptr : g.getHierarchicalCoefficients();
         size_t n = c ? (size_t) outs * g.getNumLoaded() * (g.isFourier() ? 2 : 1) : 0; pd("coef", c, n); }
@@ -164,7 +174,7 @@ static void run_line(const std::string &line) {
     if (k.t.empty() || k.t[0][0] == '#') return;
     std::string cmd = k.next();
     if (cmd == "case") { slots.clear(); streams.clear(); printf("case %s\n", k.next().c_str()); return; }
-    printf("c %s\n", line.c_str());
+    printf("c %s\n", line.c_str()); fflush(stdout);
     if (cmd == "make") {
         std::string fam = k.next(); Slot &s = S(k.next()); int d = k.ni(), outs = k.ni(), depth = k.ni();
         if (fam == "global" || fam == "sequence") { TypeDepth ty = DEPTHS.at(k.next()); TypeOneDRule r = RULES.at(k.next()); auto m = k.keyed();
@@ -254,16 +264,41 @@ static void run_line(const std::string &line) {
     else throw std::runtime_error("driver: unknown command " + cmd);
 }
 
+static void run_guarded(const std::string &line) {
+    try { run_line(line); }
+    catch (std::invalid_argument &e) { printf("x invalid_argument %s\n", e.what()); }
+    catch (std::runtime_error &e) { if (strncmp(e.what(), "driver:", 7) == 0) printf("x driver %s\n", e.what()); else printf("x runtime_error %s\n", e.what()); }
+    catch (std::out_of_range &e) { printf("x driver out_of_range %s\n", e.what()); }
+    catch (std::exception &e) { printf("x other:%s %s\n", typeid(e).name(), e.what()); }
+    fflush(stdout);
+}
+
+// Every case runs in its own child process under a CPU-time alarm, so that a crash or a call that does not
+// return is an observation about that case ("x crash:<signal>" / "x hang") and the other cases still run.
 int main(int argc, char **argv) {
-    if (argc < 2) { fprintf(stderr, "usage: tsgdrv script [workdir]\n"); return 2; }
+    if (argc < 2) { fprintf(stderr, "usage: tsgdrv script [workdir] [case-timeout-seconds]\n"); return 2; }
     if (argc > 2) workdir = argv[2];
+    int case_timeout = (argc > 3) ? atoi(argv[3]) : 20;
     std::ifstream in(argv[1]); std::string line;
+    std::vector<std::vector<std::string>> cases; 
     while (std::getline(in, line)) {
-        try { run_line(line); }
-        catch (std::invalid_argument &e) { printf("x invalid_argument %s\n", e.what()); }
-        catch (std::runtime_error &e) { if (strncmp(e.what(), "driver:", 7) == 0) printf("x driver %s\n", e.what()); else printf("x runtime_error %s\n", e.what()); }
-        catch (std::out_of_range &e) { printf("x driver out_of_range %s\n", e.what()); }
-        catch (std::exception &e) { printf("x other:%s %s\n", typeid(e).name(), e.what()); }
+        if (line.compare(0, 5, "case ") == 0 || cases.empty()) cases.emplace_back();
+        cases.back().push_back(line);
+    }
+    for (auto &c : cases) {
+        fflush(stdout);
+        pid_t pid = fork();
+        if (pid == 0) {
+            alarm((unsigned) case_timeout);
+            for (auto &l : c) run_guarded(l);
+            fflush(stdout);
+            _exit(0);
+        }
+        int status = 0; waitpid(pid, &status, 0);
+        if (WIFSIGNALED(status)) {
+            if (WTERMSIG(status) == SIGALRM) printf("x hang no return within %d s\n", case_timeout);
+            else printf("x crash:%d terminated by signal\n", WTERMSIG(status));
+        } else if (WIFEXITED(status) && WEXITSTATUS(status) != 0) printf("x crash:exit%d abnormal exit\n", WEXITSTATUS(status));
         fflush(stdout);
     }
     return 0;
